@@ -9,12 +9,21 @@
         | "DICT" nreq req*nreq argParam nn name*nn na arg*na nk (key val)*nk nh (len val*len)*nh
                                            from_dict(raw(g after the updates)).parameters
         | "RES" savesFreq hasSamples nops op*nops      op := S | F
+        | "XPD" ndir (name lo hi)*ndir ns xstmt*ns      custom-gate expansion (QV.Model.QasmDef):
+                                           queue entries (tree), flat gate list, inlining spec
+        | "EXPR" expr                      argument evaluation (QV.Model.QasmExpr) on IEEE doubles:
+                                           bits of argValue | NONE, bits of eval, isSum
+  expr := "N" bits | "P" | "NEG" expr | "B" op expr expr        op := + | - | * | /
+  xstmt := "D" name nf formal*nf nq qformal*nq nb call*nb | "C" call
+  call := name na arg*na nq qarg*nq     arg := "V" token | "S" ident     qarg := "I" n | "N" ident
   circ := n ng (label nq q*nq np p*np)*ng nr (name k q*k)*nr
   stmt := "Q" name size | "C" name size | "G" label np p*np nq (reg idx)*nq
         | "M" reg idx creg cidx
 -/
 import QV.Model.Qasm
 import QV.Model.Serial
+import QV.Model.QasmDef
+import QV.Model.QasmExpr
 open QV.Qasm QV.Serial
 
 structure Rd where
@@ -99,6 +108,87 @@ def showOpt (c : Option Circ) : String :=
   | none => "NONE"
   | some c => showCirc c
 
+/-! ### argument evaluation -/
+
+instance : QV.QasmExpr.Arith Float :=
+  ⟨(· + ·), (· - ·), (· * ·), (· / ·), Float.neg, Float.ofBits 0x400921FB54442D18⟩
+
+partial def nextExpr : P (QV.QasmExpr.Expr Float) := do
+  let k ← nextTok
+  match k with
+  | "N" => do pure (.num (Float.ofBits (← nextNat).toUInt64))
+  | "P" => pure .pi
+  | "NEG" => do pure (.neg (← nextExpr))
+  | _ => do
+    let o ← nextTok
+    let l ← nextExpr
+    let r ← nextExpr
+    let op : QV.QasmExpr.Op := if o = "+" then .add else if o = "-" then .sub else if o = "*" then .mul else .div
+    pure (.bin op l r)
+
+/-! ### custom-gate expansion -/
+
+open QV.QasmDef in
+def nextArg : P (Arg String) := do
+  let k ← nextTok
+  let t ← nextTok
+  pure (if k = "V" then .val t else .sym t)
+
+open QV.QasmDef in
+def nextQArg : P QArg := do
+  let k ← nextTok
+  if k = "I" then do pure (.idx (← nextNat)) else do pure (.name (← nextTok))
+
+open QV.QasmDef in
+def nextCall : P (Call String) := do
+  let nm ← nextTok
+  let na ← nextNat
+  let args ← rep na nextArg
+  let nq ← nextNat
+  let qs ← rep nq nextQArg
+  pure ⟨nm, args, qs⟩
+
+open QV.QasmDef in
+def nextXStmt : P (Stmt String) := do
+  let k ← nextTok
+  if k = "D" then do
+    let nm ← nextTok
+    let nf ← nextNat
+    let fs ← rep nf nextTok
+    let nq ← nextNat
+    let qf ← rep nq nextTok
+    let nb ← nextNat
+    let body ← rep nb nextCall
+    pure (.gdef ⟨nm, fs, qf, body⟩)
+  else do
+    pure (.call (← nextCall))
+
+open QV.QasmDef in
+def showQArg : QArg → String
+  | .idx q => toString q
+  | .name s => s
+
+open QV.QasmDef in
+def showArg : Arg String → String
+  | .val v => v
+  | .sym s => s!"'{s}'"
+
+open QV.QasmDef in
+def showPrim (p : Prim String) : String :=
+  s!"{p.cls} {" ".intercalate (p.qs.map showQArg)} ( {" ".intercalate (p.args.map showArg)} )"
+
+/-- `sorted(set(...))` of the joined qubits (indices at top level) -/
+def normQubits (l : List QV.QasmDef.QArg) : String :=
+  let idx := l.filterMap fun q => match q with | .idx n => some n | .name _ => none
+  let srt := (idx.toArray.qsort (· < ·)).toList.eraseDups
+  let nm := (l.filterMap fun q => match q with | .name s => some s | .idx _ => none).eraseDups
+  " ".intercalate (srt.map toString ++ nm)
+
+open QV.QasmDef in
+def showSG : SG String → String
+  | .prim p => s!"P {showPrim p}"
+  | .fused f => s!"F [ {normQubits f.qs} ] {" ; ".intercalate (f.gates.map showPrim)}"
+
 /-- symbolic oracle: fresh draws are distinct terms, `count (expand f t) = f` -/
 inductive Term where
   | drawS (t : Nat)
@@ -167,6 +257,34 @@ def handle (line : String) : String :=
         | none, none => "free"
         | _, _ => if l.obsFreq symOracle = r.obsFreq symOracle then "same" else "diff"
       pure s!"{sOk} {fOk}"
+    | "EXPR" => do
+      let e ← nextExpr
+      let a := match QV.QasmExpr.argValue (fun _ => (0 : Float)) e with
+        | none => "NONE"
+        | some v => toString v.toBits
+      pure s!"{a} {(QV.QasmExpr.eval (fun _ => (0 : Float)) e).toBits} {e.isSum}"
+    | "XPD" => do
+      let nd ← nextNat
+      let dir ← rep nd (do let nm ← nextTok; let lo ← nextNat; let hi ← nextNat; pure (nm, lo, hi))
+      let ns ← nextNat
+      let prog ← rep ns nextXStmt
+      let builtin : QV.QasmDef.Builtins :=
+        { cls := fun nm =>
+            let c := qiboGateName nm
+            if (dir.map (·.1)).contains c then some c else none,
+          ctorOk := fun c k => match dir.find? (·.1 = c) with
+            | some (_, lo, hi) => lo ≤ k && k ≤ hi
+            | none => false }
+      let tree := match QV.QasmDef.run builtin [] prog with
+        | none => "NONE"
+        | some gs => " | ".intercalate (gs.map showSG)
+      let flat := match QV.QasmDef.run builtin [] prog with
+        | none => "NONE"
+        | some gs => " ; ".intercalate ((QV.QasmDef.flatten gs).map showPrim)
+      let spec := match QV.QasmDef.inlineProg builtin [] prog with
+        | none => "NONE"
+        | some ps => " ; ".intercalate (ps.map showPrim)
+      pure s!"{tree} || {flat} || {spec}"
     | _ => pure "?"
   (run.run { toks := toks }).1
 
